@@ -84,6 +84,8 @@ func (o Op) String() string {
 		return fmt.Sprintf("mark(c%d/o%d %s)", o.C, o.I, [2]string{"default", "redundant"}[o.Mark])
 	case KDel:
 		return fmt.Sprintf("del(c%d/o%d)", o.C, o.I)
+	case KEpoch:
+		return fmt.Sprintf("epoch+%d", max(o.Exp, 1))
 	case KRace:
 		in := make([]string, len(o.Inner))
 		for i := range o.Inner {
@@ -283,6 +285,9 @@ func (w *World) Draw(t *rapid.T, al Allow, inner bool) Op {
 	case KMark:
 		op.C, op.I = w.target(t, present)
 		op.Mark = rapid.IntRange(0, 1).Draw(t, "mark")
+	case KEpoch:
+		// +1, or +3 = past every tombstone expiration drawn so far
+		op.Exp = rapid.SampledFrom([]int{1, 1, 3}).Draw(t, "depoch")
 	case KDel:
 		op.C, op.I = w.target(t, present)
 	case KRace:
@@ -380,7 +385,11 @@ func (w *World) Apply(op Op) error {
 		sh.VerifGCPass()
 		w.Pending = [NCnr][NReg]bool{}
 	case KEpoch:
-		e := w.R.Epoch.Add(1)
+		d := uint64(op.Exp)
+		if d == 0 {
+			d = 1
+		}
+		e := w.R.Epoch.Add(d)
 		sh.VerifNewEpoch(e)
 	case KFlush:
 		opErr = sh.FlushWriteCache(false)
